@@ -3,7 +3,7 @@
   src/subdevice_group/mod.rs) and the per-cycle timing arithmetic at the end of `tx_rx_dc`.
 
   Hand translation, line by line. All arithmetic is on `u64` with the crate's *unchecked*
-  operators (except the first-pulse addition, which is a `checked_add` since fix <COMMIT>), so it goes
+  operators (except the first-pulse addition, which is a `checked_add` since fix 42e28a2a), so it goes
   through helpers parameterised by `Ec.Mode` (`checked` = overflow-checks on:
   overflow panics; `wrapping` = release: two's-complement wrap). Division and remainder by zero
   panic in both modes. `Duration::as_nanos()` is a `u128`: the three `DcConfiguration` durations and
